@@ -49,6 +49,10 @@ type VizErrPic struct {
 	Root    []VizKF   `json:"root"`
 	Trans   []VizKF   `json:"trans"`
 	Ctors   []VizCtor `json:"ctors"`
+	// what stays after pruning: kept clusters with their remaining edges, failed groups with
+	// their remaining members
+	Clusters []VizCluster `json:"clusters"`
+	Groups   []VizGroup   `json:"groups"`
 }
 
 var typeByString = func() map[string]string {
@@ -117,6 +121,7 @@ type ObsPic struct {
 	Red      []string          // keys of top-level nodes coloured red
 	Orange   []string
 	Problems []string // structural problems of the document itself
+	Dangling []string // group membership links to a result node that is in no cluster
 }
 
 // ObservePic parses a DOT document produced by dig.Visualize.
@@ -127,6 +132,7 @@ func ObservePic(dot string) (*ObsPic, error) {
 	}
 	o := &ObsPic{Groups: map[string]int{}, GroupCol: map[string]string{}}
 	ctorCluster := map[string]int{}
+	inCluster := map[string]bool{} // ids of the result nodes held by clusters
 	for _, s := range g.Subs {
 		if !strings.HasPrefix(s.ID, "cluster_") {
 			o.Problems = append(o.Problems, "subgraph that is not a cluster: "+s.ID)
@@ -147,6 +153,7 @@ func ObservePic(dot string) (*ObsPic, error) {
 				continue
 			}
 			c.Results = append(c.Results, k)
+			inCluster[n.ID] = true
 		}
 		if !seenCtor {
 			o.Problems = append(o.Problems, "cluster "+idx+" has no constructor node")
@@ -210,6 +217,9 @@ func ObservePic(dot string) (*ObsPic, error) {
 		if _, ok := o.Groups[fk]; !ok {
 			o.Problems = append(o.Problems, "membership edge of an undeclared group "+fk)
 		}
+		if !inCluster[e.To] {
+			o.Dangling = append(o.Dangling, fmt.Sprintf("group %s is linked to %q, which no cluster holds", fk, e.To))
+		}
 		o.Groups[fk]++
 	}
 	return o, nil
@@ -260,6 +270,9 @@ func CompareViz(idx int, ctx string, want *VizPic, dot string) []Divergence {
 		return ds
 	}
 	for _, p := range o.Problems {
+		add("viz.structure", p)
+	}
+	for _, p := range o.Dangling {
 		add("viz.structure", p)
 	}
 	var w, g []string
@@ -317,8 +330,39 @@ func CompareVizErr(c *cat.Catalog, idx int, ctx string, want *VizErrPic, canViz 
 	for _, p := range o.Problems {
 		add("viz.structure", "error picture: "+p)
 	}
+	for _, p := range o.Dangling {
+		add("viz.structure", "error picture: "+p)
+	}
 	if !want.Can {
 		return ds
+	}
+	// what stays after pruning, compared as multisets. Pruning goes by constructor identity, so
+	// this needs distinct declared functions (reflect.MakeFunc values share one code pointer).
+	if named {
+		var w, g []string
+		for _, c := range want.Clusters {
+			w = append(w, sortedJoin(c.Rs)+" <- "+edgeStr(c.Ps)+" | "+strings.Join(c.Gps, ","))
+		}
+		for _, c := range o.Clusters {
+			g = append(g, sortedJoin(c.Results)+" <- "+edgeStr(c.Params)+" | "+strings.Join(c.Groups, ","))
+		}
+		sort.Strings(w)
+		sort.Strings(g)
+		if strings.Join(w, " ; ") != strings.Join(g, " ; ") {
+			add("viz.pruned", fmt.Sprintf("error picture: clusters (results <- dependencies | groups) want [%s] got [%s]", strings.Join(w, " ; "), strings.Join(g, " ; ")))
+		}
+		var wg, gg []string
+		for _, x := range want.Groups {
+			wg = append(wg, fmt.Sprintf("%s:%d", x.K, x.N))
+		}
+		for k, n := range o.Groups {
+			gg = append(gg, fmt.Sprintf("%s:%d", k, n))
+		}
+		sort.Strings(wg)
+		sort.Strings(gg)
+		if strings.Join(wg, " ") != strings.Join(gg, " ") {
+			add("viz.pruned", fmt.Sprintf("error picture: group nodes (key:members) want [%s] got [%s]", strings.Join(wg, " "), strings.Join(gg, " ")))
+		}
 	}
 	// marks that do not depend on constructor identity: single-key entries
 	grouped := false
